@@ -372,7 +372,7 @@ func (p *queryPlan) processClause(ctx context.Context, cls *semantic.GraphClause
 		})
 		// Data is new.
 		stmLimit := int64(0)
-		if len(p.stm.GraphPatternClauses()) == 1 && len(p.stm.GroupBy()) == 0 && len(p.stm.HavingExpression()) == 0 {
+		if p.canPushLimitDown(cls) {
 			stmLimit = p.stm.Limit()
 		}
 		tbl, err := simpleFetch(ctx, p.grfs, cls, lo, stmLimit, p.chanSize, p.tracer)
@@ -400,6 +400,21 @@ func (p *queryPlan) processClause(ctx context.Context, cls *semantic.GraphClause
 		}
 	})
 	return false, p.specifyClauseWithTable(ctx, cls, lo)
+}
+
+// canPushLimitDown returns true if the LIMIT of the statement can be handed to
+// the driver for the given clause: the rows the driver returns must be exactly
+// the rows of the final result. That requires a single clause, no grouping,
+// HAVING or ORDER BY (they pick or rearrange rows after the fetch), and a
+// clause that turns every triple it receives into a row: three different
+// plain bindings and nothing else (partially specified predicates, repeated
+// bindings and TYPE, ID or AT extractions discard triples after the fetch).
+func (p *queryPlan) canPushLimitDown(cls *semantic.GraphClause) bool {
+	if len(p.stm.GraphPatternClauses()) != 1 || len(p.stm.GroupBy()) != 0 || len(p.stm.HavingExpression()) != 0 || len(p.stm.OrderByConfig()) != 0 {
+		return false
+	}
+	return cls.SBinding != "" && cls.PBinding != "" && cls.OBinding != "" &&
+		cls.PID == "" && cls.OID == "" && len(cls.Bindings()) == 3
 }
 
 // getBoundValueForComponent return the unique bound value if available on
@@ -483,7 +498,7 @@ func (p *queryPlan) addSpecifiedData(ctx context.Context, r table.Row, cls *sema
 	})
 
 	stmLimit := int64(0)
-	if len(p.stm.GraphPatternClauses()) == 1 && len(p.stm.GroupBy()) == 0 && len(p.stm.HavingExpression()) == 0 {
+	if p.canPushLimitDown(cls) {
 		stmLimit = p.stm.Limit()
 	}
 	tbl, err := simpleFetch(ctx, p.grfs, cls, lo, stmLimit, p.chanSize, p.tracer)
